@@ -40,6 +40,15 @@ FULL_KEYS = ["M33_sansScaling_recompose", "M33_removeScaling_recompose"]
 # 3-D recomposition at full strength: the Euler round trip setEulerAngles (extractEulerXYZ R) = R for EVERY rotation matrix
 # (gimbal lock included) is proved in Props/C12Link.lean, which closes M44_extractSHRT/sansScaling_recompose_partial
 MODULE_LINK = "ImathVerif.Props.C12Link"
+# the two other overloads of the 3-D extractSHRT (rOrder, Euler<T>&), all 24 orders, and computeRSMatrix with small trees
+# (second translation unit harness/sym/sym_c12e.cpp -> Gen/C12E.lean)
+MODULE_EULER = "ImathVerif.Props.C12Euler"
+REQUIRED_EULER = ["reorder_copies_agree", "M44_extractSHRTOrd", "M44_extractSHRTEuler", "toMatrix44_eulerOf", "ctorXYZ_xyzVecOf",
+                  "M44_extractSHRTEuler_recompose_partial", "M44_extractSHRTEuler_recompose_XYZ", "M44_extractSHRTOrd_recompose_partial",
+                  "M44_extractSHRTOrd_XYZ", "roundTrip_of_principal", "M44_extractSHRTEuler_recompose_real",
+                  "M44_extractSHRTOrd_recompose_real", "nonvacuity_shrt_W", "nonvacuity_principal_W", "nonvacuity_recompose_W_ZYX",
+                  "M44_computeRSMatrix", "M44_computeRSMatrix_degenerate_B", "M44_computeRSMatrix_1_0_factors"]
+IDX_C12 = os.path.join(troute.GEN, "index_c12.txt")
 REQUIRED_LINK = ["extractEulerXYZ_unit", "extractEulerXYZ_copies_agree", "setEulerAngles_toMat", "rotH3_extractEulerXYZ",
                  "M44_extractSHRT_recompose", "M44_sansScaling_recompose", "M44_removeScaling_recompose",
                  "sqrtSpec_real", "eulerTrigSpec_real", "rotH3_extractEulerXYZ_real", "M44_extractSHRT_recompose_real",
@@ -88,7 +97,8 @@ def run_corr(chk, binary, n):
         return None, {}, {}, stats, selff, "driver rc=%s lines=%d expected=%d: %s" % (rc2, len(got), len(exp), dout[-800:])
     good, bad, first = collections.Counter(), collections.Counter(), {}
     for i, (a, b) in enumerate(zip(got, exp)):
-        k = ins[i].split()[0]
+        w = ins[i].split()
+        k = ("f32:" + w[1]) if w[0] == "f32" else w[0]
         if a.strip() == b:
             good[k] += 1
         else:
@@ -108,44 +118,47 @@ KIND_WHAT = {
     "eig3": "jacobiEigenSolver 3x3", "eig4": "jacobiEigenSolver 4x4", "idx": "maxEigenVector/minEigenVector index selection"}
 
 
-def correspondence(chk, binary, n):
+def correspondence(chk, binary, n, f32=False):
+    """model at Float (or, f32, at Float32) vs the real code at double (float), bit for bit"""
+    pre, ty, lty = ("f32:", "float", "Float32") if f32 else ("", "double", "Float")
     ok, counts, first, stats, selff, err = run_corr(chk, binary, n)
     if ok is None:
-        chk.oblige("corr:run", "correspondence", False, err)
-        chk.fail("corr:run", "corr:run", "correspondence harness / driver did not run", {"output": err}, False)
+        chk.oblige("corr:%srun" % pre, "correspondence", False, err)
+        chk.fail("corr:%srun" % pre, "corr:%srun" % pre, "correspondence harness / driver did not run", {"output": err}, False)
         return
     tot = 0
-    for k, what in KIND_WHAT.items():
+    for k0, what in KIND_WHAT.items():
+        k = pre + k0
         a, d = counts["agree"].get(k, 0), counts["differ"].get(k, 0)
         tot += a + d
-        chk.oblige("corr:%s: model at Float = real code at double, bit for bit (%d cases)" % (k, a + d), "correspondence",
+        chk.oblige("corr:%s: model at %s = real code at %s, bit for bit (%d cases)" % (k, lty, ty, a + d), "correspondence",
                    d == 0 and a > 0, None if d == 0 and a > 0 else {"agree": a, "differ": d})
         if d:
             chk.fail("corr:" + k, "corr:%s" % k,
-                     "hand model of %s differs from the real code (%d of %d cases): the model no longer mirrors the source" % (what, d, a + d),
+                     "hand model of %s differs from the real code at %s (%d of %d cases): the model no longer mirrors the source" % (what, ty, d, a + d),
                      first[k], True)
         elif a == 0:
             chk.fail("corr:" + k, "corr:%s:none" % k, "no correspondence cases of kind %s were produced" % k, {}, False)
     nontriv = sum(int(stats.get(k, 0)) for k in ("ear44_true", "ear33_true", "jstep3_changed", "jstep4_changed", "estep3_changed", "svd3", "svd4", "eig3", "eig4"))
     chk.count(tot, nontriv)
-    chk.extra["correspondence"] = {"cases": tot, "per_kind": counts, "branch_hits": stats}
+    chk.extra["correspondence" + ("_float" if f32 else "")] = {"cases": tot, "per_kind": counts, "branch_hits": stats}
     for need in ("ear44_true", "ear44_false", "ear44_flipped", "ear33_true", "ear33_false", "ear33_flipped",
                  "jstep3_changed", "jstep3_unchanged", "jstep4_changed", "jstep4_unchanged", "estep3_changed", "estep3_unchanged", "rs_ok", "rs_throw",
                  "svd_structured3", "svd_structured4", "eig_structured3", "eig_structured4", "svd_structured_rotated"):
         if int(stats.get(need, 0)) == 0:
-            chk.oblige("corr:generator-hits:" + need, "correspondence", False, "generator never reached this branch")
-            chk.fail("corr:generator", "corr:generator:" + need, "correspondence generator never reached branch " + need, {"stats": stats}, False)
+            chk.oblige("corr:%sgenerator-hits:%s" % (pre, need), "correspondence", False, "generator never reached this branch")
+            chk.fail("corr:generator", "corr:%sgenerator:%s" % (pre, need), "correspondence generator never reached branch " + need, {"stats": stats}, False)
     okrs = not [l for l in selff if l.startswith("RS-FAIL")]
-    chk.oblige("corr:computeRSMatrix = makeIdentity;translate(tA);rotate(rA|rB);scale(sA|sB) of the real extractSHRT factors, bitwise; "
-               "domain_error iff A or B degenerate (%s calls)" % (int(stats.get("rs_ok", 0)) + int(stats.get("rs_throw", 0))),
+    chk.oblige("corr:%scomputeRSMatrix = makeIdentity;translate(tA);rotate(rA|rB);scale(sA|sB) of the real extractSHRT factors, bitwise; "
+               "domain_error iff A or B degenerate (%s calls)" % (pre, int(stats.get("rs_ok", 0)) + int(stats.get("rs_throw", 0))),
                "correspondence", okrs, None if okrs else selff[:3])
     if not okrs:
-        chk.fail("corr:computeRSMatrix", "corr:computeRSMatrix:factor-selection",
+        chk.fail("corr:computeRSMatrix", "corr:%scomputeRSMatrix:factor-selection" % pre,
                  "computeRSMatrix does not mix the factors as documented", {"line": selff[0]}, True)
     oksf = not [l for l in selff if l.startswith("SELF-FAIL")]
-    chk.oblige("corr:exc=true throws std::domain_error exactly when exc=false returns false", "correspondence", oksf, None if oksf else selff[:3])
+    chk.oblige("corr:%sexc=true throws std::domain_error exactly when exc=false returns false" % pre, "correspondence", oksf, None if oksf else selff[:3])
     if not oksf:
-        chk.fail("corr:exc", "corr:exc-vs-nonexc", "throwing and non-throwing forms of extractAndRemoveScalingAndShear disagree", {"line": selff[0]}, True)
+        chk.fail("corr:exc", "corr:%sexc-vs-nonexc" % pre, "throwing and non-throwing forms of extractAndRemoveScalingAndShear disagree", {"line": selff[0]}, True)
     return first
 
 
@@ -176,8 +189,14 @@ def residue(chk, binary, n):
                  "measured property violated on the real code: " + l[:400], {"line": l}, True)
     chk.count(int(m.group(1)), int(m.group(1)))
     chk.residues["C12"] = {"evaluations": int(m.group(1)), "worst_value_over_bound": worst,
-                           "bounds": "U,V orthonormal 64*eps; |U diag(S) V^T - A| <= 64*eps*|A|; eigen 64*eps; procrustes exact recovery "
-                                     "64*eps(T)*(|B|+1) (x8 with scale); local optimality: no probed perturbation lowers the residual by > 1e-9 (1e-5 float) relative",
+                           "bounds": "each constant ~4x the largest value observed on the clean tree (seeds 1-5 quick, 1-3 thorough): "
+                                     "SVD U orthonormal, |U diag(S) V^T - A| <= 64*eps*|A|, V orthonormal 40*eps; eigen 24*eps; "
+                                     "SHRT family (3-D, 2-D, both other extractSHRT overloads x 11 orders): row-relative recomposition error "
+                                     "<= 16*eps*(1+|h|)^2, R orthonormal / det R = 1 to 8*eps*(1+|h|)^2; procrustes exact recovery: general "
+                                     "12*eps(T)*(|B|+1) (x8 with scale), degenerate shapes 256*eps(T)*(|B|+1); far clouds (offset/extent 1e3..2^24 double, "
+                                     "1e2..1e4 float): linear part to 32*eps(T)*offset/extent, points to 12*eps(T)*(|B|+1); far lattices (all numbers exact "
+                                     "at T, offset 2^16..2^24 double, 2^8..2^16 float): linear part to eps(double)*offset, points to 8*eps(double)*(|B|+1); "
+                                     "local optimality: no probed perturbation lowers the residual by > 1e-9 (1e-5 float) relative",
                            "class_hits": dict(kv.split("=") for kv in h.group(1).split()) if h else {}}
 
 
@@ -206,6 +225,51 @@ def defect_search(chk, sym_binary, name):
             "history": "this is the defect repaired in /repo commit ec5bcdd: recomposing with M.translate(tran); M.rotate(rot); "
                        "M.shear(shr) gives shear*translation*rotation because Matrix33::rotate POST-multiplies (translation row (0,5) "
                        "on this witness); the repaired code does M.rotate(rot); M.shear(shr); M[2][0] = tran.x; M[2][1] = tran.y"}
+
+
+def idx_deps_e():
+    return [IDX_LEAF, IDX_SHRT, IDX_C12]
+
+
+# toXYZVector slot permutation of a few orders: XYZ vector v -> the Euler's own (ijk) storage
+_OWN_LAYOUT = {"XZY": lambda v: [v[0], v[2], v[1]], "YZX": lambda v: [v[1], v[2], v[0]], "YXZ": lambda v: [v[1], v[0], v[2]],
+               "ZXY": lambda v: [v[2], v[0], v[1]], "ZYX": lambda v: [v[2], v[1], v[0]]}
+
+
+def euler_search(chk, sym_binary, name):
+    """a broken theorem about the rOrder / Euler<T>& overloads of extractSHRT: replay the witness W (scale (5,10,2), shear xy = 1,
+    3-4-5 rotation about Z, translation (7,8,9)) on the real code at double for a few orders and compare what the Euler<T>& overload
+    leaves in r (its own storage) with the XYZ vector of the Vec3 overload put into the layout of the order (setXYZVector)."""
+    if not sym_binary or "extractSHRT" not in name:
+        return None
+    W = ["4", "3", "0", "0", "2", "14", "0", "0", "0", "0", "2", "0", "7", "8", "9", "1"]
+
+    def real(fn):
+        cmd = [sym_binary, "real", fn] + W
+        for d in idx_deps_e():
+            cmd += ["--idx", d]
+        rc, out = lib.sh(cmd, timeout=120)
+        line = out.strip().split("\n")[-1] if out.strip() else ""
+        mv = re.search(r"exc=(\S+) vals=(.*?)ints=(.*)", line)
+        return (line, [float(x) for x in mv.group(2).split()], [int(x) for x in mv.group(3).split()]) if mv else (line, None, None)
+    bad = []
+    for o, perm in sorted(_OWN_LAYOUT.items()):
+        le, ve, ie = real("M44.extractSHRTEuler_" + o)
+        lo, vo, io = real("M44.extractSHRTOrd_" + o)
+        if ve is None or vo is None or len(ve) != 12 or len(vo) != 12:
+            continue
+        want = perm(vo[6:9])
+        if ie[:1] != [1] or io[:1] != [1] or any(abs(a - b) > 1e-12 for a, b in zip(ve[6:9], want)):
+            bad.append({"order": o, "Euler_overload_r_storage(x,y,z)": ve[6:9], "Vec3_overload_r(XYZ vector)": vo[6:9],
+                        "expected_r_storage = setXYZVector(XYZ vector)": want, "real_code_at_double": le})
+    if not bad:
+        return None
+    return {"key": "theorem:" + name,
+            "input": "M = scale (5,10,2) * shear (xy = 1) * rotation about Z by atan(3/4) * translation (7,8,9), rows (4,3,0,0) (2,14,0,0) (0,0,2,0) (7,8,9,1)",
+            "call": "Euler<double> r (order); extractSHRT (M, s, h, r, t, false)",
+            "what": "the Euler<T>& overload writes the XYZ vector (angle about X in .x, about Y in .y, about Z in .z) through the Vec3 base of r, "
+                    "whose own storage is in the ijk order of its Order: r.toMatrix44 () is not the rotation factor of M",
+            "orders": bad}
 
 
 def _mm(a, b):
@@ -301,9 +365,11 @@ def run(chk):
                 "residue: graded conditioning, repeated, rank-deficient, diagonal, reflection, symmetric, zero, scaled x {3,4} x {float,double} "
                 "x force; point sets general/collinear/coplanar/single/pair/duplicates x weighted x scale x exact/noisy.  non-trivial = "
                 "decompositions that succeed, rotations that change the matrix, whole-solver runs")
-    bins = troute.build_extractors(chk, [dict(name="sym_leaf", source="sym/sym_leaf.cpp"), dict(name="sym_c12", source="sym/sym_c12.cpp")])
-    res = lib.cxx_build_many([dict(name="c12_corr", sources=["corr/c12_corr.cpp"]), dict(name="c12_residue", sources=["corr/c12_residue.cpp"])])
-    for nm in ("c12_corr", "c12_residue"):
+    bins = troute.build_extractors(chk, [dict(name="sym_leaf", source="sym/sym_leaf.cpp"), dict(name="sym_c12", source="sym/sym_c12.cpp"),
+                                         dict(name="sym_c12e", source="sym/sym_c12e.cpp")])
+    res = lib.cxx_build_many([dict(name="c12_corr", sources=["corr/c12_corr.cpp"]), dict(name="c12_residue", sources=["corr/c12_residue.cpp"]),
+                              dict(name="c12_corr_f", sources=["corr/c12_corr.cpp"], extra=("-DC12_FLOAT",))])
+    for nm in ("c12_corr", "c12_residue", "c12_corr_f"):
         ok, path, log = res[nm]
         chk.oblige("build:" + nm, "build", ok, None if ok else log[-1500:])
         if not ok:
@@ -319,16 +385,28 @@ def run(chk):
         troute.lean_tv(chk, bins["sym_c12"], "c12", index, n=8 if chk.thorough else 3, idx_deps=idx_deps())
         for d in index[:6]:
             chk.sample({"entry": d["name"], "paths": d.get("paths")})
+        if bins.get("sym_c12e"):
+            # second translation unit: the rOrder / Euler<T>& overloads of extractSHRT (24 orders) and computeRSMatrix with every callee
+            # an opaque call of a definition regenerated just above (Gen/C12.lean) or of the hand model
+            index_e, _ = troute.regenerate(chk, bins["sym_c12e"], "c12e", idx_deps=idx_deps_e())
+            troute.tv(chk, bins["sym_c12e"], "c12e", 400 if chk.thorough else 64, idx_deps=idx_deps_e())
+            for d in index_e[:4]:
+                chk.sample({"entry": d["name"], "paths": d.get("paths")})
     rc, out = lib.lake_build(["drv_shrt"])
     chk.oblige("build:drv_shrt", "build", rc == 0, None if rc == 0 else out[-800:])
     if rc != 0:
         chk.fail("build:drv_shrt", "build:drv_shrt", "the model driver does not build", {"output": out[-1500:]}, False)
     if rc == 0 and bins.get("c12_corr"):
         state["corr_first"] = correspondence(chk, bins["c12_corr"], 2000 if chk.thorough else 300)
+    if rc == 0 and bins.get("c12_corr_f"):
+        # the float instantiations (incl. the explicit instantiations of jacobiSVD / jacobiEigenSolver in the .cpp) vs the same models at Float32
+        correspondence(chk, bins["c12_corr_f"], 1000 if chk.thorough else 150, f32=True)
     chk.check_theorems(MODULE, required=REQUIRED, search=lambda n: generic_search(chk, state, n))
     chk.check_theorems(MODULE_FULL, required=REQUIRED_FULL,
                        search=lambda n: defect_search(chk, bins.get("sym_c12"), n) if bins.get("sym_c12") else None)
     chk.check_theorems(MODULE_LINK, required=REQUIRED_LINK, search=lambda n: generic_search(chk, state, n))
+    chk.check_theorems(MODULE_EULER, required=REQUIRED_EULER,
+                       search=lambda n: euler_search(chk, bins.get("sym_c12e"), n) or generic_search(chk, state, n))
     # removeScaling (Matrix33) returns sansScaling's matrix (theorem M33_removeScaling): its recomposition theorem is derived from
     # M33_sansScaling_recompose, so it inherits the failure; report it under its own key with its own replay on the real code
     if any(f["key"] == "theorem:M33_sansScaling_recompose" for f in chk.failures) and bins.get("sym_c12") and \
